@@ -338,7 +338,9 @@ loop:
 					j, isDigit = j+1, hexaNumericUnderscore
 				} else if next == 'b' || next == 'B' {
 					j, isDigit = j+1, zeroOneUnderscore
-				} else if numeric(next) {
+				} else if numeric(next) || next == '_' {
+					// "0_17" is legacy octal too: later stages drop the
+					// underscores and would read (or re-print) it as "017".
 					return nil, nil, fmt.Errorf("token: legacy octal syntax at %s:%d", filename, line)
 				}
 			}
